@@ -49,6 +49,7 @@ type frameSpec struct {
 	cutAt            int    // >=0: the frame is truncated to this many bytes
 	flagsFO          uint16 // flags and fragment offset word (0x4000 = don't fragment)
 	cutAtTotLen      bool   // the frame ends where its total-length field says (no bytes beyond it)
+	udpLenField      int    // > 0: written into the UDP length field instead of the true length (minus one: 0 means "true length")
 }
 
 // buildFrame encodes an IPv4/UDP frame with correct checksums for the header as written.
@@ -78,6 +79,9 @@ func buildFrame(f frameSpec) []byte {
 	binary.BigEndian.PutUint16(u[0:], f.srcPort)
 	binary.BigEndian.PutUint16(u[2:], f.dstPort)
 	binary.BigEndian.PutUint16(u[4:], uint16(udpLen))
+	if f.udpLenField > 0 {
+		binary.BigEndian.PutUint16(u[4:], uint16(f.udpLenField-1))
+	}
 	copy(u[8:], f.payload)
 	pseudo := make([]byte, 12)
 	copy(pseudo[0:4], f.srcIP[:])
@@ -104,7 +108,8 @@ func buildFrame(f frameSpec) []byte {
 type rawExpect struct {
 	payload []byte
 	src     net.UDPAddr
-	bufLen  int // > 0: the reader offered fewer bytes than the payload; the frame may be returned cut to bufLen bytes or skipped
+	bufLen  int  // > 0: the reader offered fewer bytes than the payload; the frame may be returned cut to bufLen bytes or skipped
+	loose   bool // the UDP length field disagrees with the IP total length: the result is unspecified (skipped, or any prefix of the IP-bounded payload), but the frame must not disturb anything else
 }
 
 // nicAccept is the reference decision: is this frame a well-formed IPv4/UDP datagram for the bound address?
@@ -131,7 +136,11 @@ func nicAccept(b []byte, bound *net.UDPAddr) (rawExpect, bool) {
 	if bound.IP != nil && !bound.IP.Equal(net.IP(b[16:20])) {
 		return rawExpect{}, false
 	}
-	return rawExpect{payload: append([]byte(nil), u[8:]...), src: net.UDPAddr{IP: net.IP(append([]byte(nil), b[12:16]...)), Port: int(binary.BigEndian.Uint16(u[0:]))}}, true
+	e := rawExpect{payload: append([]byte(nil), u[8:]...), src: net.UDPAddr{IP: net.IP(append([]byte(nil), b[12:16]...)), Port: int(binary.BigEndian.Uint16(u[0:]))}}
+	if int(binary.BigEndian.Uint16(u[4:])) != len(u) {
+		e.loose = true
+	}
+	return e, true
 }
 
 type rawRead struct {
@@ -382,7 +391,7 @@ func (st *rawState) frame(i int) ([]byte, string) {
 		s.Fault("frame-df-flag")
 	}
 	tag := "valid"
-	switch t.Weighted(8, 3, 3, 2, 2, 2, 2, 2, 2, 2, 1, 1, 1, 2) {
+	switch t.Weighted(8, 3, 3, 2, 2, 2, 2, 2, 2, 2, 1, 1, 1, 2, 2) {
 	case 1:
 		f.ihl = 6 + t.Choose(10)
 		tag = fmt.Sprintf("ip-options ihl=%d", f.ihl)
@@ -454,6 +463,13 @@ func (st *rawState) frame(i int) ([]byte, string) {
 		f.padding = 40
 		tag = "ihl-beyond-total-length"
 		s.Fault("frame-ihl-gt-totlen")
+	case 14:
+		// the UDP length field disagrees with the IP total length (0..7, shorter or longer than
+		// the datagram): what ReadFrom makes of it is unspecified, that it survives it is not
+		n := 8 + len(f.payload)
+		f.udpLenField = 1 + []int{0, 1, 7, 8, n / 2, n - 1, n + 1, n + 100, 65535}[t.Choose(9)]
+		tag = fmt.Sprintf("udp-length-field %d for %d", f.udpLenField-1, n)
+		s.Fault("frame-udp-length-inconsistent")
 	case 13:
 		// a frame as the deprecated client4 builds it for its raw socket (MakeRawUDPPacket):
 		// the second frame encoder of the library. It is judged structurally here and then
@@ -657,6 +673,14 @@ func (st *rawState) oracle(v *vio) {
 			for ok < len(st.expect) {
 				e := st.expect[ok]
 				ok++
+				if e.loose {
+					ua, isUDP := r.src.(*net.UDPAddr)
+					if isUDP && ua.IP.Equal(e.src.IP) && ua.Port == e.src.Port && r.n <= len(e.payload) && bytes.Equal(r.data, e.payload[:r.n]) {
+						matched = true
+						break
+					}
+					continue
+				}
 				if e.bufLen > 0 {
 					ua, isUDP := r.src.(*net.UDPAddr)
 					if r.n == e.bufLen && bytes.Equal(r.data, e.payload[:e.bufLen]) && isUDP && ua.IP.Equal(e.src.IP) && ua.Port == e.src.Port {
@@ -681,7 +705,7 @@ func (st *rawState) oracle(v *vio) {
 		}
 		missed := 0
 		for _, e := range st.expect[ok:] {
-			if e.bufLen == 0 {
+			if e.bufLen == 0 && !e.loose {
 				missed++
 			}
 		}
@@ -738,9 +762,13 @@ func (st *rawState) readsAlign() bool {
 		for j := len(es); j >= 0; j-- {
 			switch {
 			case i == len(rs):
-				f[i][j] = j == len(es) || (es[j].bufLen > 0 && f[i][j+1])
+				f[i][j] = j == len(es) || ((es[j].bufLen > 0 || es[j].loose) && f[i][j+1])
 			case j == len(es):
 				f[i][j] = false
+			case es[j].loose:
+				ua, ok := rs[i].src.(*net.UDPAddr)
+				pre := ok && ua.IP.Equal(es[j].src.IP) && ua.Port == es[j].src.Port && rs[i].n <= len(es[j].payload) && bytes.Equal(rs[i].data, es[j].payload[:rs[i].n])
+				f[i][j] = f[i][j+1] || (pre && f[i+1][j+1])
 			case es[j].bufLen > 0:
 				f[i][j] = f[i][j+1] || (same(rs[i], es[j], es[j].payload[:es[j].bufLen]) && f[i+1][j+1])
 			default:
